@@ -64,6 +64,17 @@ CmpMag(c1, e1, c2, e2) ==
        IN IF a1 < a2 THEN -1 ELSE IF a1 > a2 THEN 1
           ELSE IF e1 >= e2 THEN Cmp(MulPow10(c1, e1 - e2), c2) ELSE Cmp(c1, MulPow10(c2, e2 - e1))
 
+\* sign of the exact difference x - y for non-NaN x, y (zeros of either sign are equal)
+CmpSpec(x, y) ==
+  LET sx == IF ZeroD(x) THEN 0 ELSE IF x.n THEN -1 ELSE 1
+      sy == IF ZeroD(y) THEN 0 ELSE IF y.n THEN -1 ELSE 1
+  IN IF sx # sy THEN (IF sx < sy THEN -1 ELSE 1)
+     ELSE IF sx = 0 THEN 0
+     ELSE IF IsInf(x) /\ IsInf(y) THEN 0
+     ELSE IF IsInf(x) THEN sx
+     ELSE IF IsInf(y) THEN -sx
+     ELSE sx * CmpMag(x.c, x.e, y.c, y.e)
+
 \* abstract equality: identical representation (form, sign and, if finite, coefficient and exponent)
 AbsEq(a, b) == a.f = b.f /\ a.n = b.n /\ (a.f = FIN => (a.c = b.c /\ a.e = b.e))
 \* same decimal as observed (also for NaN payload-free decimals)
